@@ -252,8 +252,16 @@ where
             match zscore(a, tg) {
                 None => {
                     res[i].stages.push((a.n, a.mean, a.se(), f64::NAN));
-                    // zero variance exactly on target is fine
-                    if a.se() == 0. && (a.mean - tg.theta).abs() <= 1e-9 {
+                    // zero variance exactly on target (or on the allowed side of a one-sided bound) is fine
+                    let on_side = match tg.kind {
+                        Kind::Upper => a.mean <= tg.theta,
+                        Kind::Lower => a.mean >= tg.theta,
+                        _ => false,
+                    };
+                    if a.se() == 0. && ((a.mean - tg.theta).abs() <= 1e-9 || on_side) {
+                        res[i].verdict = Verdict::Held;
+                    } else if on_side && first_sign[i] == 0. {
+                        // too few events for a z-score but the observed mean is on the allowed side of the bound
                         res[i].verdict = Verdict::Held;
                     } else {
                         res[i].verdict = Verdict::TooFewEvents;
